@@ -162,7 +162,7 @@ func c16Sampled(c *Case) {
 			add("pluck", Arr(jsonOf(Meth(of, "pluck", ks...)), jsonOf(of), Meth(of, "length")), absent)
 			c.Count("method:pluck")
 		case 6, 7:
-			pool := []string{"1", "-1", "+2", "0.5", ".5", "5.", "1e3", "1E-2", "007", "1e", "", " ", " 1", "1 ", "abc", "1 2", "1,5", "--1", "0x10", "12abc", "9007199254740993", "1e308", "4.9e-324"}
+			pool := []string{"1", "-1", "+2", "0.5", ".5", "5.", "1e3", "1E-2", "007", "010", "0017", "-0123", "+00042", "0777", "00", "-0", "1_000", "0o17", "0b11", "1e", "", " ", " 1", "1 ", "abc", "1 2", "1,5", "--1", "0x10", "12abc", "9007199254740993", "1e308", "4.9e-324"}
 			s := pool[rng.IntN(len(pool))]
 			add("num", jsonOf(CallE(V("num"), field(s))), !strings.ContainsAny(s, "0123456789") || strings.ContainsAny(s, " ,ex-"))
 			c.Count("builtin:num")
